@@ -76,7 +76,7 @@ def _unused_name_ok_py(s):
 # ----------------------------------------------------------------------------- implementation side
 def impl_tokenize(s):
     from bfg9000 import depfixer
-    return [[t.value - 1] + ([ord(v)] if v is not None else []) for t, v in depfixer.tokenize(s)]
+    return [[t.value - 1] + ([ord(c) for c in v] if v is not None else []) for t, v in depfixer.tokenize(s)]
 
 
 def impl_emit(s):
@@ -880,7 +880,7 @@ def stage_system(rep, nhist, nedits, risky_chars):
                     classes=f['classes']):
                 nfail += 1          # known findings do not count as found failing inputs
         if risky and not fails:
-            rep.count('sys:risky-scenario-passed:' + RISKY[risky])
+            rep.count('sys:risky-scenario-passed:' + RISKY.get(risky, 'ordinary-special-char %r' % risky))
     rep.stage('system', histories=len(jobs), failing=nfail)
     return nfail
 
@@ -949,7 +949,8 @@ def run(rep):
     rbad += stage_r_makesem(rep, rng, 300 if thorough else 40)
     load_local_findings(rep)
     found = stage_oracle_depfix(rep, rng, 600 if thorough else 120)
-    found += stage_system(rep, 10 if thorough else 2, 30 if thorough else 5, list(RISKY) if thorough else ['%', ':'])
+    found += stage_system(rep, 10 if thorough else 2, 30 if thorough else 5,
+                          (list(RISKY) if thorough else ['%', ':']) + ['$', '#', ' '] + (["'", ',', '('] if thorough else []))
     if dis and not found:
         # the tie is broken but the ordinary budget found no failing input: search with a 10x budget
         found = stage_oracle_depfix(rep, rng, 6000 if thorough else 1200)
